@@ -6,7 +6,7 @@ namespace sim {
 
 // ------------------------------------------------------------------------------------------ synthesiser
 static void put_utf16be(Bytes &b, const std::vector<u32> &cps) {
-    for (u32 c : cps) { if (c < 0x10000) put16(b, c); else { put16(b, 0xD800 - (0x10000 >> 10) + (c >> 10)); put16(b, 0xDC00 + (c & 0x3FF)); } }
+    for (u32 c : cps) { if (c == 0x110000) { put16(b, 0xD83D); continue; } if (c < 0x10000) put16(b, c); else { put16(b, 0xD800 - (0x10000 >> 10) + (c >> 10)); put16(b, 0xDC00 + (c & 0x3FF)); } }
 }
 
 void feat_override(Store &st, const Fault &f) {
@@ -80,6 +80,7 @@ void feat_override(Store &st, const Fault &f) {
         NR nr; nr.lang = nlangs[l]; nr.nameid = id;
         unsigned len = r.below(12);
         for (unsigned k = 0; k < len; ++k) { u32 c = r.below(10); nr.text.push_back(c < 6 ? 0x41 + r.below(58) : c < 8 ? 0xC0 + r.below(0x500) : c < 9 ? 0x4E00 + r.below(0x1000) : 0x10000 + r.below(0xFFFFF)); }
+        if (r.chance(1, 25)) nr.text.push_back(0x110000);      // marker: a trailing lone lead surrogate (the label must come back NULL)
         recs.push_back(nr);
     }
     Bytes name, strings; put16(name, 0); put16(name, u32(recs.size())); put16(name, u32(6 + 12 * recs.size()));
@@ -191,11 +192,11 @@ Plan gen_feat(u64 seed) {
         u32 k = r.below(100); i64 face = i64(r.below(nfaces));
         Op o;
         if (k < 14 || i == 0) { o.kind = "fval_lang"; o.a = {face, i64(qlangs[r.below(16)])}; }
-        else if (k < 22) { o.kind = "fval_clone"; o.a = {r.chance(1, 8) ? -1 : i64(r.below(8)), face}; }
+        else if (k < 22) { o.kind = "fval_clone"; o.a = {r.chance(1, nfaces > 1 ? 3 : 8) ? -1 : i64(r.below(8)), face}; }
         else if (k < 62) {
             o.kind = "fval_set"; i64 v; u32 c = r.below(10);
             v = c < 3 ? i64(r.below(4)) : c < 5 ? i64(r.below(70)) : c < 6 ? 65535 : c < 7 ? 0 : c < 8 ? i64(1u << r.below(16)) : i64(r.below(65536));
-            o.a = {i64(r.below(8)), i64(r.below(96)), v, (nfaces > 1 && r.chance(1, 12)) ? i64(r.below(nfaces)) : -1};
+            o.a = {i64(r.below(8)), i64(r.below(96)), v, (nfaces > 1 && r.chance(1, 4)) ? i64(r.below(nfaces)) : -1};
         }
         else if (k < 76) { o.kind = "fval_get"; o.a = {i64(r.below(8)), i64(r.below(96))}; }
         else if (k < 82) { o.kind = "fval_destroy"; o.a = {i64(r.below(8))}; }
@@ -269,6 +270,20 @@ void run_feat(const Plan &p) {
             } else if (op.kind == "fval_set" || op.kind == "fval_get") {
                 size_t oi = size_t(r.v[0]); unsigned fidx = unsigned(r.v[1]); i64 res = r.v[2];
                 bool cross = r.v.size() > 3;
+                if (cross && op.kind == "fval_set" && mface[oi] < 0 && judged[oi]) {
+                    // an object from gr_featureval_clone(NULL) that no set has succeeded on yet belongs to no face: a set through
+                    // any face is an ordinary set (this is how "after failure fv is unchanged" becomes observable for such objects)
+                    int other = w.pick_face(op.arg(3));
+                    if (other >= 0 && models[size_t(other)].ok && fidx < models[size_t(other)].visible.size()) {
+                        const Model &mo = models[size_t(other)]; size_t k2 = size_t(mo.visible[fidx]); const MFeat &f2 = mo.feats[k2];
+                        u32 v = u32(op.arg(2)) & 0xFFFF; bool want_ok = f2.nosettings || v <= f2.maxv;
+                        probe("feat:unbound-set-through-other-face");
+                        if ((res != 0) != want_ok) { violation("C18:set-result", strf("set(feature #%u id 0x%08x max %u, value %u) on a feature-value object that belongs to no face yet returned %lld, expected %s", fidx, f2.id, f2.maxv, v, (long long)res, want_ok ? "success" : "failure")); break; }
+                        if (want_ok) { mface[oi] = other; mvals[oi] = MVals(mo.feats.size(), 0); mvals[oi][k2] = v; w.fvals[oi].face = other; }
+                        w.fvals[oi].tainted = false;
+                        continue;
+                    }
+                }
                 if (cross) { judged[oi] = false; probe("feat:cross-face"); continue; }
                 if (!judged[oi]) continue;
                 int fi = w.fvals[oi].face; const Model &m = models[size_t(fi)];
